@@ -120,7 +120,7 @@ func (g *scopeGen) funcBody(head string) {
 }
 
 func (g *scopeGen) stat() {
-	k := g.r.Intn(35)
+	k := g.r.Intn(36)
 	if g.depth >= 4 && k >= 12 && k <= 20 {
 		k = g.r.Intn(10)
 	}
@@ -324,6 +324,18 @@ func (g *scopeGen) stat() {
 		n := g.name()
 		g.line("local " + n + " = " + []string{"\"😀\" .. ", "\"😀😀 中\" .. ", "\"中文\" .. ", "--[[😀]] "}[g.r.Intn(4)] + g.useName() + " .. " + g.useName())
 		g.locals = append(g.locals, n)
+	case 35:
+		// the text of an annotation comment inside a string literal is text: what follows it is code
+		if g.r.Chance(1, 3) {
+			g.line("print(\"---@\", " + g.useName() + ", \"--\", " + g.useName() + ")")
+		} else if g.r.Chance(1, 2) {
+			// bracket characters in string literals around an identifier: it is not the key of a ["..."] access
+			g.line("print(\"[\" .. " + g.useName() + " .. \"]\", '[', " + g.useName() + ", ']')")
+		} else {
+			n := g.name()
+			g.line("local " + n + " = \"---@type \" .. " + g.useName() + " .. '--[[' .. " + g.useName())
+			g.locals = append(g.locals, n)
+		}
 	default:
 		g.line("local " + g.name() + ", " + g.name())
 	}
